@@ -106,9 +106,9 @@ pub fn run_mem(b: &[u8]) -> Vec<u64> {
     }
     let end = LIVE.load(Ordering::Relaxed) - base;
     let q = at_quarter.unwrap_or(end);
-    // retained memory must not keep growing with the input: the last three quarters add at most 64 KiB,
+    // retained memory must not keep growing with the input: the last three quarters add at most 16 KiB,
     // and the total stays under what 8192 handlers of bounded size can hold
-    let ok = end <= q + 65536 && peak < 64 * 1024 * 1024;
+    let ok = end <= q + 16384 && peak < 64 * 1024 * 1024;
     drop(d);
     vec![ok as u64]
 }
